@@ -146,14 +146,14 @@ def limiterOpSwitch : List Bytes := [b!"switch io.op {case opAdd:if (io.accessed
 
 /-- C16: what a finished fill reports to the limiter: nothing on revalidation; the name and size
     handed in by `finishAndNotify` (the writer's CURRENT key, after any ChangeKey) -/
-def closeFinisherShape : List Bytes := [b!"params:name,size", b!"if revalidate {return }", b!"ai:={accessTime:accessTime((time.Now().Unix()-s.startedAt)),sizeKilobytes:uint32((size/1024))}", b!"s.itemsChan<-&{op:opAdd,name:itemName(name),accessedItem:&ai}"]
+def closeFinisherShape : List Bytes := [b!"params:name,size", b!"if revalidate {return }", b!"ai:={accessTime:accessTime((time.Now().Unix()-s.startedAt)),sizeKilobytes:uint32((size/1024))}", b!"verifAdjustAccess(s,&ai,nil)", b!"s.itemsChan<-&{op:opAdd,name:itemName(name),accessedItem:&ai}"]
 def finishAndNotifyShape : List Bytes := [b!"if (sw.closeFinisher!=nil) {sw.closeFinisher(sw.key.FsName(),sw.writtenSize)}", b!"sw.notify()"]
 
 /-- C17: every Get books the access under the key that was FOUND (the loop variable), with the stored size -/
 def getAccessCall : List Bytes := [b!"s.setAccessTime(key,sm.Size)"]
 
 /-- C17: setAccessTime books it under the key handed in -/
-def setAccessTimeShape : List Bytes := [b!"name:=itemName(key.FsName())", b!"item:={accessTime((time.Now().Unix()-s.startedAt)),uint32((size/1024))}", b!"storableItem:={time.Now().Unix(),uint32((size/1024))}", b!"s.itemsChan<-&{op:opAccessTime,name:name,accessedItem:&item,storableAccessedItem:&storableItem}"]
+def setAccessTimeShape : List Bytes := [b!"name:=itemName(key.FsName())", b!"item:={accessTime((time.Now().Unix()-s.startedAt)),uint32((size/1024))}", b!"storableItem:={time.Now().Unix(),uint32((size/1024))}", b!"verifAdjustAccess(s,&item,&storableItem)", b!"s.itemsChan<-&{op:opAccessTime,name:name,accessedItem:&item,storableAccessedItem:&storableItem}"]
 
 /-- C07 C12 C14: the read side takes metadata AND size from the descriptor storage.Get opened (xattr.FGet / f.Stat,
     never by path): one inode is one stored response, so a reader sees the old unit or the new unit of a
